@@ -5,6 +5,7 @@ from . import layout, litalg
 def run(ctx):
     from . import lazyvars as _lazyvars
     _lazyvars.rule_lazy_variable_counter(ctx)
+    _lazyvars.rule_range_offset(ctx)
     layout.rule_variable_layout(ctx)
     layout.rule_selector_above_encoding(ctx)
     layout.rule_clause_templates(ctx)
